@@ -210,4 +210,20 @@ example :
                       .connect "enode://h1@5.5.5.5:30303"],
         peerRequest := some (1, "parity"), result := .ok } := by decide
 
+/-! ### what reaches the node
+
+The agent hands the pool's host URIs to `EthNode.ConnectPeer`; for a geth node that goes through `encodeNodeID`
+(component `ethrpc` runs the real wrapper against a recording RPC server). -/
+
+/-- **a host URI reaches the node unchanged** — address, port and query included -/
+theorem encode_keeps_uri (s : String) (h : hasEnodePrefix s = true) : encodeNodeID s = s := by
+  simp [encodeNodeID, h]
+
+/-- a bare id only gets the prefix geth insists on -/
+theorem encode_prefixes_bare_id (s : String) (h : hasEnodePrefix s = false) : encodeNodeID s = "enode://" ++ s := by
+  simp [encodeNodeID, h]
+
+example : encodeNodeID "enode://ab@127.0.0.1:30304?discport=1" = "enode://ab@127.0.0.1:30304?discport=1" ∧
+    encodeNodeID "ab" = "enode://ab" := by decide
+
 end Vipnode.C18
